@@ -1,11 +1,11 @@
 ----------------------------- MODULE MC_Mismatch -----------------------------
-(* C03: emit the mismatch universe of SyltMismatch (table MM x context chains) and of SyltArrival (cores x
-   arrival forms x context chains) (mode emit) and validate the recorded compile results of the real compiler
+(* C03: emit the mismatch universe of SyltMismatch (table MM x context chains), of SyltArrival (cores x
+   arrival forms x context chains) and of SyltOps (operator x same unsupported type x shape x context chains) (mode emit) and validate the recorded compile results of the real compiler
    against the specification's expectation (mode validate).
    A case id is <<m, path>>: m = <<0, index into MM, 0, 0>> for a table entry, <<core, form 1, form 2, layout>>
-   for a derived mismatch.  Emission walks key by key (initial states: the keys; one Emit step per chain of the
+   for a derived mismatch, <<NC + 1..3, pair, shape, variant>> for an operator-type mismatch.  Emission walks key by key (initial states: the keys; one Emit step per chain of the
    key), so that no set of all cases is ever built. *)
-EXTENDS SyltArrival, Json, IOUtils, FiniteSetsExt
+EXTENDS SyltOps, Json, IOUtils, FiniteSetsExt
 
 VARIABLES k, pc
 vars == <<k, pc>>
@@ -25,12 +25,14 @@ SliceOf(m, p) == (m[1] * 37 + m[2] * 11 + m[3] * 5 + m[4] + CtxNo(p[1]) * 53 + (
 
 TableKeys == {<<0, i, 0, 0>> : i \in 1..NM}
 Keys == AKeys(Pairs)
-AllKeys == TableKeys \cup Keys
+AllKeys == TableKeys \cup Keys \cup OKeys
 \* the chains of a key (in this slice)
 PathsOf(m) == IF m[1] = 0 THEN PathsFor(MM[m[2]], D)
+              ELSE IF m[1] > NC THEN OChains(m, Full, Seed, Mod)
               ELSE IF IsPairOnly(m) THEN PairChains(m) ELSE AChains(m, Full, Seed, Mod)
 SlicePaths(m) == IF NSlice = 1 THEN PathsOf(m) ELSE {p \in PathsOf(m) : SliceOf(m, p) = Slice}
 KeyKnown(m) == (m[1] = 0 /\ m[2] \in 1..NM /\ m[3] = 0 /\ m[4] = 0)
+               \/ (m[1] > NC /\ OKeyKnown(m))
                \/ (m[1] \in 1..NC /\ <<m[2], m[3], m[4]>> \in FormVecs(Cores[m[1]], Pairs) /\ Applicable(m))
 InUniverse(m, p) == KeyKnown(m) /\ p \in SlicePaths(m)
 CountOver(S) == FoldSet(LAMBDA m, acc : acc + Cardinality(SlicePaths(m)), 0, S)
@@ -44,11 +46,14 @@ ASSUME ContextsUsed
 ASSUME CoreKindsDistinct /\ CoreShape /\ OldCoresInTable /\ FormsDistinct
 ASSUME CoresDefinite /\ CoresDiffer
 ASSUME ArrivalSound
+ASSUME OTypeNamesDistinct /\ OpsDefinite /\ OpsCover
 ASSUME (Mode = "emit" /\ Slice = 0) => CellsInhabited(CaseIds(D))
 ASSUME (Mode = "emit" /\ Slice = 0) => ProgramsDiffer(CaseIds(D))
 ASSUME (Mode = "emit" /\ Slice = 0) => CellsMet(Pairs) /\ KeysPlaced(Keys, Full, Seed, Mod)
 ASSUME Mode = "emit" => PrintT(<<"PRELUDE", ToJson(Prelude)>>)
 ASSUME Mode = "emit" => PrintT(<<"UNIVERSE", ToJson([table_cases |-> CountOver(TableKeys), arrival_cases |-> CountOver(Keys),
+                                                      ops_cases |-> CountOver(OKeys), ops_keys |-> Cardinality(OKeys),
+                                                      op_pairs |-> <<Len(BinPairs), Len(CompPairs), Len(DiffPairs)>>,
                                                       keys |-> Cardinality(AllKeys), kinds |-> NM, depth |-> D,
                                                       contexts |-> Cardinality(Contexts), cores |-> NC, forms |-> NF,
                                                       derived |-> Cardinality(Keys), nslice |-> NSlice, slice |-> Slice,
@@ -56,7 +61,7 @@ ASSUME Mode = "emit" => PrintT(<<"UNIVERSE", ToJson([table_cases |-> CountOver(T
                                                       core_kinds |-> [i \in 1..NC |-> Cores[i].kind]])>>)
 
 Rec == IF Mode = "validate" THEN ndJsonDeserialize(IOEnv.TRACE) ELSE <<>>
-KindOf(m) == IF m[1] = 0 THEN MM[m[2]].kind ELSE AKind(m)
+KindOf(m) == IF m[1] = 0 THEN MM[m[2]].kind ELSE IF m[1] > NC THEN OKind(m) ELSE AKind(m)
 
 Init == /\ pc = "start"
         /\ IF Mode = "emit" THEN k \in {<<m, <<>>>> : m \in AllKeys}
@@ -69,14 +74,21 @@ IdRec(id) ==
   IF m[1] = 0 THEN
     LET t == MM[m[2]] IN
     [kind |-> t.kind, m |-> m, path |-> id[2], depth |-> Len(id[2]), rule |-> t.rule, sort |-> t.sort, ty |-> t.ty,
-     core |-> t.kind, forms |-> <<>>]
+     core |-> t.kind, forms |-> <<>>, u |-> "table"]
+  ELSE IF m[1] > NC THEN
+    [kind |-> OKind(m), m |-> m, path |-> id[2], depth |-> Len(id[2]), rule |-> OpRule(OOp(m)), sort |-> "S", ty |-> "-",
+     core |-> OClass(m), forms |-> OForms(m), u |-> "ops"]
   ELSE
     LET c == Cores[m[1]] IN
     [kind |-> AKind(m), m |-> m, path |-> id[2], depth |-> Len(id[2]), rule |-> c.rule, sort |-> c.sort, ty |-> c.ty,
-     core |-> c.kind,
+     core |-> c.kind, u |-> "arrival",
      forms |-> IF c.n = 1 THEN <<FName(Forms[m[2]])>> ELSE <<FName(Forms[m[2]]), FName(Forms[m[3]])>>]
-Base(id) == IF id[1][1] = 0 THEN BaseProgram(<<id[1][2], id[2]>>) ELSE AProgram(id[1], id[2], FALSE)
-Planted(id) == IF id[1][1] = 0 THEN PlantedProgram(<<id[1][2], id[2]>>) ELSE AProgram(id[1], id[2], TRUE)
+Prog(id, planted) ==
+  IF id[1][1] = 0 THEN (IF planted THEN PlantedProgram(<<id[1][2], id[2]>>) ELSE BaseProgram(<<id[1][2], id[2]>>))
+  ELSE IF id[1][1] > NC THEN OProgram(id[1], id[2], planted)
+  ELSE AProgram(id[1], id[2], planted)
+Base(id) == Prog(id, FALSE)
+Planted(id) == Prog(id, TRUE)
 
 Emit == /\ Mode = "emit" /\ pc = "start" /\ pc' = "done"
         /\ \E p \in SlicePaths(k[1]) :
